@@ -35,3 +35,49 @@ int c06_ptrkey_entry(const std::unordered_map<const int *, int> &m) {
 }
 
 }  // namespace verif_control
+
+// ---- RESET (C06) -----------------------------------------------------------
+#include <memory>
+#include <vector>
+namespace verif_control {
+struct ResetWorker { int state = 0; };
+class c06_ResetRoot {
+ public:
+  virtual ~c06_ResetRoot() {}
+  bool Run(int n) {
+    items_.clear();
+    if (!Prepare(n)) return false;
+    for (int i = 0; i < n; ++i) items_.push_back(i);
+    return true;
+  }
+ protected:
+  virtual bool Prepare(int n) = 0;
+  std::vector<int> items_;
+};
+// worker object kept when the same mode is selected again
+class c06_ResetBad : public c06_ResetRoot {
+ protected:
+  bool Prepare(int n) override {
+    if (n != mode_) worker_ = nullptr;
+    mode_ = n;
+    if (!worker_) worker_.reset(new ResetWorker());
+    return worker_ != nullptr;
+  }
+  std::unique_ptr<ResetWorker> worker_;
+  int mode_ = -1;
+};
+class c06_ResetOk : public c06_ResetRoot {
+ protected:
+  bool Prepare(int n) override {
+    worker_ = nullptr;
+    if (n > 3) {
+      worker_.reset(new ResetWorker());
+    } else {
+      worker_ = std::unique_ptr<ResetWorker>(new ResetWorker());
+    }
+    return worker_ != nullptr;
+  }
+  std::unique_ptr<ResetWorker> worker_;
+};
+bool c06_reset_use(c06_ResetBad *a, c06_ResetOk *b) { return a->Run(1) && b->Run(2); }
+}  // namespace verif_control
